@@ -545,6 +545,14 @@ def gen_bounds(repo):
     if guards != ['0', '1', '2']:
         notes.append('get_basis: unrecognised dof guards %r' % (guards,))
     sd = basis_pushes(body, notes, 'site dof', angle_is='rot')
+    # --- the rotational symmetry handed to `get_basis` by `generate_basis` of both state kinds
+    rots = []
+    for rel in ('src/state/packed.rs', 'src/state/potential.rs'):
+        gb = fn_body(read(repo, rel), 'generate_basis') or ''
+        m = re.search(r'site\.get_basis\(\s*([^()]*(?:\([^()]*\))?[^()]*)\)', gb)
+        rots.append(re.sub(r'\s+', '', m.group(1)) if m else '?')
+    L.append('/-- the argument of `site.get_basis(…)` in `generate_basis` of PackedState / PotentialState -/')
+    L.append('def generateBasisRotSym : List String := [' + ', '.join(lean_str(x) for x in rots) + ']')
     L.append('/-- `OccupiedSite::get_basis` (each guarded by the matching entry of `degrees_of_freedom`) -/')
     L.append('def siteDofSpecs : List DofSpec := ' + lean_dofs(sd))
     L.append('')
